@@ -189,13 +189,15 @@ type Lit struct {
 }
 
 // LiteralEquivalent mirrors the decision of zoekt's regexp-to-substring distillation for the regexps it treats as
-// *equivalent* to substring searches (captures, x+, x{1,n} and alternations of literals of 3+ bytes): such a
+// *equivalent* to substring searches (captures, x+, x{1,n} and alternations of literals of 3+ runes): such a
 // regexp atom contributes the occurrences of its literals, not the regexp engine's matches.
 func LiteralEquivalent(re *syntax.Regexp, cs bool) ([]Lit, bool) {
 	switch re.Op {
 	case syntax.OpLiteral:
 		s := string(re.Rune)
-		if len(s) >= 3 {
+		// runes, not bytes, since the fix "count runes, not bytes, when deciding whether a regexp literal is long
+		// enough for a substring matchTree" (index/eval.go)
+		if utf8.RuneCountInString(s) >= 3 {
 			return []Lit{{s, cs && re.Flags&syntax.FoldCase == 0}}, true
 		}
 	case syntax.OpCapture, syntax.OpPlus:
